@@ -53,10 +53,11 @@ const (
 	SecLocObj          // lo = H.Obj(r) ; lo.Ping(r)               a method called on an object kept in a local
 	SecLocObjReader    // lo.Ping(r) without assigning lo          must fail
 	SecLocAlias        // la = AL.Base; la += r; lb = ALQ[0]; lb *= 3; H.Alias(...)   locals bound from injected slots, then updated in place
+	SecOptName         // H.OptSet(r); ov = r+300                  a plain name that some calls inject (then it is shared) and others do not (then it is a local)
 	numSecKinds
 )
 
-var secNames = [...]string{"Y", "Call", "AsgCall", "AsgKind", "Div", "Idx", "Nil", "Unknown", "Arg", "IfKind", "IfIdx", "IfNil", "Elif", "ForKind", "ForStep", "Unb", "UnbCont", "Conc", "Local", "Reader", "Stop", "ShW", "ShR", "Upd", "Echo", "Opt", "IfCall", "ForRange", "MapIdx", "SetKind", "SetNil", "RangeKey", "ThreeNil", "IfThreeNil", "ArgCount", "NilMapSet", "FuncCall", "IfFunc", "ThreeSet", "LocObj", "LocObjReader", "LocAlias"}
+var secNames = [...]string{"Y", "Call", "AsgCall", "AsgKind", "Div", "Idx", "Nil", "Unknown", "Arg", "IfKind", "IfIdx", "IfNil", "Elif", "ForKind", "ForStep", "Unb", "UnbCont", "Conc", "Local", "Reader", "Stop", "ShW", "ShR", "Upd", "Echo", "Opt", "IfCall", "ForRange", "MapIdx", "SetKind", "SetNil", "RangeKey", "ThreeNil", "IfThreeNil", "ArgCount", "NilMapSet", "FuncCall", "IfFunc", "ThreeSet", "LocObj", "LocObjReader", "LocAlias", "OptName"}
 
 // FaultCapable reports whether a section hosts a fault point.
 func FaultCapable(k int) bool {
@@ -256,6 +257,8 @@ func (r *RuleDef) Render() string {
 			yk++
 		case SecLocObjReader:
 			fmt.Fprintf(&b, "H.B(%d,%d)\nlo.Ping(%d)\n", id, p, id)
+		case SecOptName:
+			fmt.Fprintf(&b, "H.OptSet(%d)\nov = %d\n", id, id+300)
 		case SecLocAlias:
 			fmt.Fprintf(&b, "la = AL.Base\nla += %d\nlb = ALQ[0]\nH.Y(%d,%d)\nlb *= 3\nH.Alias(%d, la, lb, AL.Base, ALQ[0])\n", id, id, yk, id)
 			yk++
